@@ -27,7 +27,7 @@ ASSUMPTIONS = [
     "Base-2 Fermat pseudoprimes as p or n are out of scope (documented by the library)",
 ]
 
-TOY_PRIMES_Q = [5, 7, 11, 13, 17, 19, 23, 29, 31, 37]
+TOY_PRIMES_Q = [3, 5, 7, 11, 13, 17, 19, 23, 29, 31, 37]
 TOY_PRIMES_T = TOY_PRIMES_Q + [41, 43, 47, 53, 59, 61, 67, 71, 73, 79, 83, 89, 97, 101]
 
 MECH_FUNCS = [
